@@ -47,7 +47,10 @@ ASSUMPTIONS = [
     "runs ending in Stack overflow or a timeout (implementation) / fuel (model) are not compared",
     "never-read theorem: the unpruned run must not end in the model's variable-missing panic sites (scoping is C04/C06) — the oracle checks that the implementation does not panic",
     "dead-store theorem (round 2): same exclusions as the never-read theorem (fuel, the three variable-missing panic sites of the less-pruned run)",
-    "plan entries that stay covered by the plan-vs-no-plan oracle and the model tie only: pruned FIRST declarations of a local that dead code / an unused function still mentions, right-hand sides that are not total pure expressions (calls to pure built-ins or user functions, operators applied to variables)",
+    "round 3: the only plan entries the shipped analysis emits that no theorem covers are stores whose right-hand side calls a USER function "
+    "(pruned when the callee's transitive class is PureNoTrap and it has no transitive capture write; the analysis does not require the callee to "
+    "terminate: a pruned run can end where the plain run exhausts the stack or never ends - not compared, resource exhaustion) and command(..) "
+    "(outside the model); they are counted in entries_outside_every_proved_class / unproved_entry_shapes and stay covered by the plan-vs-no-plan oracle",
 ]
 CAN_RUN_WITHOUT_MODEL = True
 CFGS = ["nn", "pn", "nf", "pf"]
@@ -57,10 +60,16 @@ KEY_IMPURE = "callee-capture-write-not-impure"
 KEY_TYPEMIS = "pruned-stmt-can-raise-type-mismatch"
 KEY_BITSET = "liveness-bitset-index-oob"
 KEY_READ_AFTER_WRITE = "callee-capture-read-after-own-write"
+KEY_MEMBER = "member-access-classified-trap-free"
 
 # fixed corpus: the defects this property's machinery confirmed (all repaired in /repo; they stay here so a
 # regression is reported again), plus shapes around them
 CORPUS = [
+    (KEY_MEMBER, 'make x get "ab"\nmake u get x.len\nshout("@1@" add to_string(2))\n'),
+    (KEY_MEMBER + "/assign", 'make x get [1]\nmake u get 0\nu get x.len\nshout("@1@" add to_string(2))\n'),
+    (KEY_MEMBER + "/array", 'make x get 3\nmake u get [1, x.abs]\nshout("@1@" add to_string(2))\n'),
+    # boundary, not compared (resource exhaustion): the analysis does not ask a pruned callee to terminate
+    ("pure-callee-deep-recursion", 'do f(n) start\n  return f(n add 1)\nend\nmake u get f(0)\nshout("@1@" add to_string(2))\n'),
     (KEY_KILL, 'make x get 1\ndo m(c) start\n  if to say (c) start x get 2 end\nend\nx get 5\nm(false)\nshout("@1@" add to_string(x))\n'),
     (KEY_IMPURE, 'make x get 1\ndo set_x() start\n  x get 2\n  return 0\nend\nmake y get set_x()\nshout("@1@" add to_string(x))\n'),
     (KEY_TYPEMIS, 'make x get 1\nif to say (true) start x get "s" end\nmake u get x minus 1\nshout("@1@" add to_string(2))\n'),
@@ -96,7 +105,7 @@ class C03Gen(langgen.Gen):
                  "self_update_via_callee", "self_update_via_callee", "self_update_via_callee", "self_update_direct",
                  "self_update_direct", "hoisted_after_ctl", "ds_flow", "ds_flow", "ds_flow", "callee_mutates_array",
                  "scc_group", "scc_group", "scc_group", "scc_group", "call_chain", "loop_branch_jump", "loop_branch_jump",
-                 "loop_branch_jump", "loop_branch_jump"]
+                 "loop_branch_jump", "loop_branch_jump", "round3", "round3", "round3", "round3"]
 
     def __init__(self, rng, opts=None):
         super().__init__(rng, opts)
@@ -866,6 +875,79 @@ class C03Gen(langgen.Gen):
                 lines.append("%sshout(%s)" % (pad, x.name))
         return lines
 
+    # ---- round 3: the shapes that used to lie outside every proved class
+    def t_round3(self, ind):
+        r, pad = self.r, "  " * ind
+        ty = r.choice([STR, NUM])
+        lines = []
+        form = r.randrange(7)
+        if form in (0, 1, 5) and not self.can_fn():
+            form = 2
+        if form == 6 and self.loop_depth >= 2:
+            form = 3
+        if form == 0:
+            # FIRST declaration that only an unused function mentions
+            x = self.fresh("u")
+            g = self.fresh("f")
+            lines += ["%smake %s get %s" % (pad, x, r.choice([self.lit(ty), "[1, %s]" % self.lit(STR), "typeof(%s)" % self.lit(ty)])),
+                      "%sdo %s() start" % (pad, g), "%s  shout(%s)" % (pad, x), "%s  return %s" % (pad, x), "%send" % pad,
+                      "%sshout(%s)" % (pad, self.lit(NUM))]
+        elif form == 1:
+            # FIRST declaration that only dead code mentions
+            f = self.fresh("f")
+            lines += ["%sdo %s(c) start" % (pad, f), "%s  make t get %s" % (pad, self.lit(ty)),
+                      "%s  if to say (c) start return 1 end if not so start return 2 end" % pad, "%s  shout(t)" % pad, "%s  t get %s" % (pad, self.lit(ty)), "%send" % pad,
+                      "%sshout(%s(%s))" % (pad, f, r.choice(["true", "false"]))]
+        elif form == 2:
+            # dead stores / unused declarations whose right-hand side is a pure built-in call
+            x = self.newvar(ty, pad, lines)
+            rhs = r.choice(["typeof(%s)" % x.name, "to_string(%s)" % x.name, "to_string([%s, 1])" % x.name, "typeof(to_string(%s))" % self.lit(ty),
+                            "[typeof(%s), %s]" % (x.name, x.name), "to_string(\"{%s}\")" % x.name])
+            if r.random() < 0.5:
+                lines.append("%smake %s get %s" % (pad, self.fresh("u"), rhs))
+            else:
+                y = self.newvar(STR, pad, lines)
+                lines += ["%s%s get %s" % (pad, y.name, rhs), "%s%s get %s" % (pad, y.name, self.lit(STR)), "%sshout(%s)" % (pad, y.name)]
+            lines.append("%sshout(%s)" % (pad, x.name))
+        elif form == 3:
+            # operator trees over literals and template strings
+            x = self.newvar(ty, pad, lines)
+            rhs = r.choice(['"a" add "{%s}"' % x.name, '"{%s}" add 1' % x.name, '2 add "{%s}!"' % x.name, '"{%s}" na "x"' % x.name,
+                            '"{%s}" pass "b" or false' % x.name, '[1 add 2, "p{%s}" add "q"]' % x.name])
+            if r.random() < 0.5:
+                lines.append("%smake %s get %s" % (pad, self.fresh("u"), rhs))
+            else:
+                y = self.newvar(STR, pad, lines)
+                lines += ["%s%s get %s" % (pad, y.name, rhs), "%s%s get %s" % (pad, y.name, self.lit(STR)), "%sshout(%s)" % (pad, y.name)]
+            lines.append("%sshout(%s)" % (pad, x.name))
+        elif form == 4:
+            # a member access that is not a call always raises Type mismatch: must never be pruned
+            x = self.newvar(STR, pad, lines)
+            u = self.fresh("u")
+            lines += ["%sif to say (%s) start" % (pad, r.choice(["true", "false", "false"])),
+                      "%s  make %s get %s" % (pad, u, r.choice(["%s.len" % x.name, "[1, %s.trim]" % x.name])), "%send" % pad,
+                      "%sshout(%s)" % (pad, x.name)]
+        elif form == 5:
+            # result of a pure, trap-free user function never used
+            f = self.fresh("f")
+            body = r.choice([["make t get [p, 1]", 'return "{t}"'], ["if to say (true) start return p end", "return 0"],
+                             ["make k get 0", "k get typeof(p)", "return [k, p]"], ["return to_string(p)"]])
+            lines += ["%sdo %s(p) start" % (pad, f)] + ["%s  %s" % (pad, b) for b in body] + ["%send" % pad]
+            if r.random() < 0.5:
+                lines.append("%smake %s get %s(%s)" % (pad, self.fresh("u"), f, self.lit(ty)))
+            else:
+                y = self.newvar(STR, pad, lines)
+                lines += ["%s%s get %s(%s)" % (pad, y.name, f, self.lit(ty)), "%s%s get %s" % (pad, y.name, self.lit(STR)), "%sshout(%s)" % (pad, y.name)]
+            lines.append("%sshout(%s)" % (pad, self.lit(NUM)))
+        else:
+            # FIRST declaration in a loop body / branch that nothing reads
+            i = self.fresh("v")
+            lines += ["%smake %s get 0" % (pad, i), "%sjasi (%s small pass 2) start" % (pad, i), "%s  %s get %s add 1" % (pad, i, i),
+                      "%s  make w get %s" % (pad, r.choice([self.lit(ty), "typeof(%s)" % i, '"n{%s}" add "!"' % i])),
+                      "%s  if to say (%s pass 1) start make w get %s end" % (pad, i, self.lit(ty)), "%send" % pad, "%sshout(%s)" % (pad, i)]
+            self.declare(i, NUM)
+        return lines
+
     def t_many_locals(self, ind):
         if not self.can_fn() or self.r.random() < 0.85:
             return None
@@ -1157,6 +1239,173 @@ _CALL_RE = re.compile(r"[A-Za-z_][A-Za-z0-9_]*\s*\(")
 
 
 # --------------------------------------------------------------------------------------------
+# syntactic shape of the pruned statements (round 3: what lies outside the proved classes)
+
+_BUILTINS = {"shout", "typeof", "read_line", "to_string", "command"}
+_RANKS = ["literal", "trapping-operator-on-literals", "variable", "template-string", "operator-over-variables", "builtin-call",
+          "user-call", "member-access", "index", "method-call"]
+
+
+def entry_shapes(ast_line):
+    """-> {stmt id (str): "declaration-first|declaration-again|assignment / <rhs shape>"} for every make/assignment.
+    rhs shape = the highest-ranked construct of _RANKS that occurs in the right-hand side (arrays are transparent)."""
+    toks = ast_line.split()[1:]
+    pos = [0]
+
+    def nxt():
+        t = toks[pos[0]]
+        pos[0] += 1
+        return t
+
+    def rk(name):
+        return _RANKS.index(name)
+
+    def expr():
+        t = nxt()
+        if t in ("N", "S", "B"):
+            nxt()
+            return 0
+        if t == "Z":
+            return 0
+        if t == "I":
+            r = 0
+            for _ in range(int(nxt())):
+                if nxt() == "L":
+                    nxt()
+                else:
+                    nxt()
+                    nxt()
+                    r = rk("template-string")
+            return r
+        if t == "V":
+            nxt()
+            nxt()
+            return rk("variable")
+        if t == "O":
+            op = nxt()
+            r = max(expr(), expr())
+            if r == 0 and op in ("divide", "mod"):
+                return rk("trapping-operator-on-literals")
+            if r in (rk("variable"), rk("template-string")):
+                return rk("operator-over-variables")
+            return r
+        if t == "U":
+            nxt()
+            r = expr()
+            return rk("operator-over-variables") if r in (rk("variable"), rk("template-string")) else r
+        if t == "A":
+            r = 0
+            for _ in range(int(nxt())):
+                r = max(r, expr())
+            return r
+        if t == "X":
+            return max(expr(), expr(), rk("index"))
+        if t == "M":
+            r = expr()
+            nxt()
+            return max(r, rk("member-access"))
+        if t == "C":
+            # callee
+            c = nxt()
+            if c == "V":
+                nm = bytes.fromhex(nxt()).decode("utf-8", "replace")
+                nxt()
+                r = rk("builtin-call") if nm in _BUILTINS else rk("user-call")
+            elif c == "M":
+                r = max(expr(), rk("method-call"))
+                nxt()
+            else:
+                pos[0] -= 1
+                r = max(expr(), rk("method-call"))
+            for _ in range(int(nxt())):
+                r = max(r, expr())
+            nxt()
+            return r
+        raise ValueError("expr " + t)
+
+    shapes = {}
+
+    def block(scopes):
+        scopes = scopes + [set()]
+        for _ in range(int(nxt())):
+            stmt(scopes)
+
+    def stmt(scopes):
+        t = nxt()
+        sid = nxt()
+        if t == "F":
+            nxt()
+            for _ in range(int(nxt())):
+                nxt()
+            block([set()])
+            nxt()
+            nxt()
+            nxt()
+        elif t in ("K", "T"):
+            nxt()
+            lid = nxt()
+            r = expr()
+            if t == "T":
+                kind = "assignment"
+            elif lid in scopes[-1]:
+                kind = "declaration-again"
+            else:
+                kind = "declaration-first"
+                scopes[-1].add(lid)
+            shapes[sid] = "%s / %s" % (kind, _RANKS[r])
+        elif t == "J":
+            expr()
+            expr()
+        elif t == "IF":
+            expr()
+            block(scopes)
+            if nxt() == "1":
+                block(scopes)
+        elif t == "W":
+            expr()
+            block(scopes)
+        elif t == "BL":
+            block(scopes)
+        elif t == "R":
+            if nxt() == "1":
+                expr()
+        elif t in ("BR", "NX"):
+            pass
+        elif t == "EX":
+            expr()
+        else:
+            raise ValueError("stmt " + t)
+
+    block([])
+    return shapes
+
+
+def doc_programs():
+    """/repo/examples/*.ns and the fenced code blocks of README.md and docs/*.md"""
+    repo = os.environ.get("VERIF_REPO", "/repo")
+    out = []
+    ex = os.path.join(repo, "examples")
+    if os.path.isdir(ex):
+        for fn in sorted(os.listdir(ex)):
+            if fn.endswith(".ns"):
+                out.append(("doc/examples/" + fn, open(os.path.join(ex, fn), encoding="utf-8", errors="replace").read()))
+    mds = [os.path.join(repo, "README.md")]
+    dd = os.path.join(repo, "docs")
+    if os.path.isdir(dd):
+        mds += [os.path.join(dd, fn) for fn in sorted(os.listdir(dd)) if fn.endswith(".md")]
+    for md in mds:
+        if not os.path.exists(md):
+            continue
+        txt = open(md, encoding="utf-8", errors="replace").read()
+        for k, m in enumerate(re.finditer(r"```[A-Za-z]*\n(.*?)```", txt, re.S)):
+            body = m.group(1)
+            if "read_line" in body or "command(" in body or len(body) > 6000:
+                continue                      # would wait for input / spawn a process
+            out.append(("doc/%s#%d" % (os.path.basename(md), k), body if body.endswith("\n") else body + "\n"))
+    return out
+
+
+# --------------------------------------------------------------------------------------------
 # verdict lines of `nsmodel langc03`
 
 def run_planok(env, name, recs, order):
@@ -1216,9 +1465,10 @@ def run_planok(env, name, recs, order):
 def failure_key(rec, verdict):
     nn = rec["runs"].get("nn", ("", ""))
     pn = rec["runs"].get("pn", ("", ""))
-    if "Type_mismatch" in nn[0] and "Type_mismatch" not in pn[0]:
-        return KEY_TYPEMIS
     classes = set(k for _, k in (verdict or {}).get("stmts", []))
+    if "Type_mismatch" in nn[0] and "Type_mismatch" not in pn[0]:
+        # a pruned entry the classifier puts in no class (bare member access) vs. operators on dynamically typed operands
+        return KEY_MEMBER if "X" in classes else KEY_TYPEMIS
     if "DC" in classes:
         return KEY_IMPURE
     if "DS" in classes:
@@ -1355,6 +1605,22 @@ def judge(cid, src, rec, mrec, verdict, out, known_key=None):
             c3[k3] = c3.get(k3, 0) + 1
         for i, k in verdict["fns"]:
             c3[k] = c3.get(k, 0) + 1
+        # round 3: syntactic shape of every entry that no theorem covers
+        unp = [(i, k) for i, k in verdict["stmts"] if not (k in ("U", "N", "N2") or (i in acc3))]
+        if unp:
+            try:
+                shp = entry_shapes(rec["ast"])
+            except Exception as ex:
+                shp = {}
+                out["disagreements"].append({"stream": "ast-dump-unreadable", "case": src, "detail": "entry_shapes: %s" % ex})
+            us = out.setdefault("unproved_shapes", {})
+            for i, k in unp:
+                key = "%s [%s]" % (shp.get(i, "not a make/assignment"), k)
+                us[key] = us.get(key, 0) + 1
+                ex_ = out.setdefault("unproved_examples", {})
+                if key not in ex_ and len(src) < 1500:
+                    ex_[key] = {"stmt": i, "plan": plan, "program": src}
+        out["entries_unproved"] = out.get("entries_unproved", 0) + len(unp) + sum(1 for _, k in verdict["fns"] if k != "UF")
         if "checked3" in verdict:
             if not verdict["checked3"][1]:
                 # ds_ok fails even with nothing accepted: a construct the liveness checker does not support
@@ -1486,13 +1752,18 @@ def correspond(env, searching=False, model=True):
     corpus = [("corpus/%d/%s" % (i, k), s) for i, (k, s) in enumerate(CORPUS)]
     keys = {}
     for (cid, _), (k, _) in zip(corpus, CORPUS):
-        if k.split("/")[0] in (KEY_KILL, KEY_IMPURE, KEY_TYPEMIS, KEY_BITSET, KEY_READ_AFTER_WRITE):
+        if k.split("/")[0] in (KEY_KILL, KEY_IMPURE, KEY_TYPEMIS, KEY_BITSET, KEY_READ_AFTER_WRITE, KEY_MEMBER):
             keys[cid] = k.split("/")[0]
     cdir = os.path.join(common.VERIF, "gen", "corpus", "C03")
     if os.path.isdir(cdir):
         for fn in sorted(os.listdir(cdir)):
             corpus.append(("corpus/file/" + fn, open(os.path.join(cdir, fn)).read()))
     run_stream(env, "corpus", corpus, out, model=model, keys=keys)
+    # 1b. the programs the project itself ships: examples and documentation snippets
+    docs = doc_programs()
+    before = out["accepted"]
+    run_stream(env, "docs", docs, out, model=model, timeout=300)
+    out["doc_programs"] = (len(docs), out["accepted"] - before)
     # 2. generated programs
     n = 600 if quick else 12000
     if searching:
@@ -1547,11 +1818,15 @@ def correspond(env, searching=False, model=True):
                   "flow_sensitive_dead_stores_covered_by_the_liveness_theorem": c3.get("L:DS", 0),
                   "plans_fully_covered_by_the_four_class_theorem": out.get("plans_fully_covered3", 0),
                   "programs_the_liveness_checker_rejects_structurally": out.get("liveness_structural_rejects", 0),
+                  "entries_outside_every_proved_class": out.get("entries_unproved", 0),
+                  "unproved_entry_shapes": out.get("unproved_shapes", {}),
+                  "unproved_entry_examples": out.get("unproved_examples", {}),
+                  "shipped_examples_and_doc_snippets": {"programs": out.get("doc_programs", (0, 0))[0], "accepted": out.get("doc_programs", (0, 0))[1]},
                   "class_legend": {"U": "unreachable (theorem)", "N": "never-read local, total right-hand side (theorem)", "UF": "unused function (theorem)",
                                    "N2": "never-read local whose declaration the analysis keeps (theorem C03_plan_ok2_sound: via the augmented plan)",
                                    "NM": "never read, but some writer has a right-hand side that is not a total pure expression (oracle only)",
-                                   "DS": "dead store by flow-sensitive liveness not accepted by LiveCheck.ds_ok: pruned FIRST declaration of a local, or right-hand side not a total pure expression (oracle only)",
-                                   "DC": "dead store with calls in the right-hand side (oracle only)",
+                                   "DS": "dead store by flow-sensitive liveness not accepted by LiveCheck.ds_ok (oracle only; none since round 3)",
+                                   "DC": "store whose right-hand side contains a call and that neither the never-read class nor LiveCheck.ds_ok accepts: since round 3 only calls of USER functions (oracle only)",
                                    "L:<k>": "round 2: entry of round-1 class <k> accepted by the verified backward liveness LiveCheck.ds_ok "
                                             "(theorem C03_prune_dead_stores_sound / C03_plan_ok3_sound; all constructs incl. loops, scope exits, calls, captures, recursion)",
                                    "X": "no class: broken obligation", "XF": "function live code can call: broken obligation"},
